@@ -207,7 +207,8 @@ fn run_shuttle(seed: u64, pct_depth: u32, body: impl Fn(Arc<Mutex<Vec<OpRec>>>) 
 
 pub fn gen8(rng: &mut Rng) -> Scn8 {
     let budget = if rng.chance(1, 2) {
-        let max = rng.range(1, 4) as u32;
+        // (a maximum of zero switches retries off)
+        let max = rng.range(0, 4) as u32;
         Budget::TokenBucket { max, initial: rng.range(0, max as u64) as u32 }
     } else {
         let max = rng.range(1, 6) as u32;
@@ -236,7 +237,7 @@ pub fn valid8(s: &Scn8) -> bool {
         && s.threads.iter().map(|t| t.len()).sum::<usize>() >= 1
         && s.pct_depth <= 5
         && match &s.budget {
-            Budget::TokenBucket { max, initial } => *max >= 1 && *max <= 8 && initial <= max,
+            Budget::TokenBucket { max, initial } => *max <= 8 && initial <= max,
             Budget::Aimd { min, max, deposit, withdraw, factor_eighths } => min <= max && *max >= 1 && *max <= 16 && *deposit >= 1 && *deposit <= 4 && *withdraw >= 1 && *withdraw <= 4 && *factor_eighths <= 8,
         }
 }
@@ -506,8 +507,15 @@ pub fn gen13t(rng: &mut Rng) -> Scn13t {
     let initial = rng.range(min as u64, max as u64) as u32;
     // u32::MAX stands for usize::MAX: no upper bound, possibly starting wide open
     let (initial, max) = if rng.chance(1, 10) { (if rng.chance(2, 3) { u32::MAX } else { initial }, u32::MAX) } else { (initial, max) };
+    // limits in the hundreds (a step that depends on the magnitude must still respect the bounds)
+    let (min, initial, max) = if max != u32::MAX && rng.chance(1, 8) {
+        let base = *rng.pick(&[95u32, 100, 118, 150, 990]);
+        (base + min, base + initial, base + max)
+    } else {
+        (min, initial, max)
+    };
     // a steady stream of equally fast successes is what makes a limiter creep upwards
-    let threads: Vec<Vec<LOp>> = if max == u32::MAX && rng.chance(1, 2) {
+    let threads: Vec<Vec<LOp>> = if (max == u32::MAX || max >= 90) && rng.chance(1, 2) {
         let lat = *rng.pick(&[1u64, 5, 10]);
         (0..nt).map(|_| (0..rng.range(4, 8)).map(|_| LOp::Success(lat)).collect()).collect()
     } else {
@@ -531,10 +539,10 @@ pub fn valid13t(s: &Scn13t) -> bool {
     s.alg <= 2
         && s.min >= 1
         && s.min <= s.max
-        && (s.max <= 20 || s.max == u32::MAX)
+        && (s.max <= 1100 || s.max == u32::MAX)
         && s.initial >= s.min
         && s.initial <= s.max
-        && (s.initial <= 20 || s.initial == u32::MAX)
+        && (s.initial <= 1100 || s.initial == u32::MAX)
         && s.increase >= 1
         && s.increase <= 4
         && s.factor_eighths <= 8
